@@ -2,4 +2,7 @@ package main
 
 import "verif/harness/props/c16"
 
-func init() { registry["C16"] = prop{"model_checking", seamAssumptions, c16.Parts} }
+func init() {
+	registry["C16"] = prop{"model_checking", seamAssumptions, c16.Parts}
+	innerParts["C16"] = c16.InnerParts
+}
